@@ -890,11 +890,23 @@ enum LOp {
     ListRead(usize, String),   // per-path read split out of List op #
 }
 
+/// In the flat reference hub a path "is a directory" when some live file lives beneath it.
+fn ref_is_dir(state: &Files, path: &str) -> bool {
+    let pre = format!("{path}/");
+    state.keys().any(|k| k.starts_with(&pre) && !is_staging(k))
+}
+
 fn ref_apply(state: &mut Files, rec: &OpRec) -> Reply {
     match &rec.op {
         Op::Put { path, content, declared_hash, declared_len, .. } => {
             // only well-formed Puts take part (malformed ones are C10's)
             let _ = (declared_hash, declared_len);
+            // a write can never become the live content of a path that is a directory: the only reply
+            // consistent with "acknowledged as committed = live" is an error, with no effect
+            // (a stale write to such a path still does not commit and keeps its bytes in a conflict-copy)
+            if ref_is_dir(state, path) && rec.expected.is_none() {
+                return Reply::Error(String::new());
+            }
             let cur = state.get(path).map(|b| h(b));
             if cur == rec.expected {
                 state.insert(path.clone(), content.clone());
@@ -915,7 +927,7 @@ fn ref_apply(state: &mut Files, rec: &OpRec) -> Reply {
         }
         Op::Get { path } => match state.get(path) {
             Some(b) => Reply::Content { len: b.len() as u64, hash: h(b), bytes: b.clone() },
-            None => Reply::Error("not found".into()),
+            None => Reply::Error(String::new()),
         },
         Op::List => Reply::Fingerprints(state.iter().map(|(k, v)| (k.clone(), h(v))).collect()),
     }
@@ -924,6 +936,8 @@ fn ref_apply(state: &mut Files, rec: &OpRec) -> Reply {
 fn clean_reply(r: &Reply) -> Reply {
     match r {
         Reply::Fingerprints(m) => Reply::Fingerprints(m.iter().filter(|(k, _)| !is_staging(k)).map(|(k, v)| (k.clone(), *v)).collect()),
+        // error replies are compared by kind, not by message
+        Reply::Error(_) => Reply::Error(String::new()),
         x => x.clone(),
     }
 }
